@@ -108,57 +108,50 @@ def ref_complete(x, t):
     return lab
 
 
-def ref_rational(x, t, rule):
-    """All label sequences reachable when decisions within 4 ulp of t (not exact ties on exact data)
-    may go either way.  rule in {'centroid', 'average'}."""
+def check_rational(x, t, rule, labels):
+    """Walk along the implementation's own label sequence: at every point the cluster it is in is
+    known from the previous labels, the stated distance to that cluster is computed in exact
+    rational arithmetic, and the step (new cluster or not) must agree with `distance >= t` unless
+    the decision lies within the rounding slack of t (then either step is accepted).  Linear in n,
+    no enumeration of alternatives.  Returns (first bad index or None, #ambiguous decisions)."""
     xs = [F(float(v)) for v in x]
     tF = F(float(t))
     length = xs[-1] - xs[0]
     exact_data = dyadic_small(x)
-    results = set()
-    amb = [0]
     EPSF = float(np.finfo(float).eps)
     xmax = max(abs(v) for v in x)
-
-    def go(i, start, labels):
-        while i < len(xs):
-            members = xs[start:i]
+    amb = 0
+    start = 0
+    ssum = xs[0]
+    for i in range(1, len(xs)):
+        k = i - start
+        step = labels[i] - labels[i - 1]
+        if k == 1:
+            # one-member cluster: the statement's distance is the single float expression
+            # |x_i - x_j| / range, evaluated without intermediate rounding choices -> binding
+            new_cluster = math.fabs(x[i] - x[start]) / (x[-1] - x[0]) >= t
+        else:
             if rule == 'centroid':
-                d = abs(xs[i] - sum(members) / len(members)) / length
+                d = abs(xs[i] - ssum / k) / length
             else:
-                d = sum(abs(m - xs[i]) for m in members) / (len(members) * length)
+                d = sum(abs(m - xs[i]) for m in xs[start:i]) / (k * length)
             df = float(d)
             # conditioning: the centroid / the member distances carry an absolute rounding error of
             # about eps*max|x| per member, which the division by the range turns into slack on d
-            slack = 4 * EPSF * max(abs(df), abs(t)) + 16 * EPSF * xmax * len(members) / float(length)
-            close = abs(df - t) <= slack and not (d == tF and exact_data and rule == 'average')
-            # the centroid is updated incrementally in floats, so even exact ties are only binding
-            # for one-member clusters (no rounding in the centroid)
-            if len(members) == 1:
-                # one-member cluster: the statement's distance is the single float expression
-                # |x_i - x_j| / range, evaluated without intermediate rounding choices -> binding
-                close = False
-                new_cluster = math.fabs(x[i] - x[start]) / (x[-1] - x[0]) >= t
-                labels = labels + [labels[-1] + (1 if new_cluster else 0)]
-                if new_cluster:
-                    start = i
-                i += 1
-                continue
-            if close and len(results) < 64:
-                amb[0] += 1
-                go(i + 1, i, labels + [labels[-1] + 1])      # new cluster
-                labels = labels + [labels[-1]]               # or stay
-                i += 1
-                continue
-            if d >= tF:
-                labels = labels + [labels[-1] + 1]
-                start = i
+            slack = 4 * EPSF * max(abs(df), abs(t)) + 16 * EPSF * xmax * k / float(length)
+            if abs(df - t) <= slack and not (d == tF and exact_data and rule == 'average'):
+                amb += 1
+                new_cluster = bool(step)          # either decision is accepted
             else:
-                labels = labels + [labels[-1]]
-            i += 1
-        results.add(tuple(labels))
-    go(1, 0, [0])
-    return results, amb[0]
+                new_cluster = d >= tF
+        if bool(step) != new_cluster:
+            return i, amb
+        if new_cluster:
+            start = i
+            ssum = xs[i]
+        else:
+            ssum += xs[i]
+    return None, amb
 
 
 def oracle(case, rec):
@@ -187,8 +180,8 @@ def oracle(case, rec):
         rec.check(outs['complete_linkage'] == ref_complete(x, t), 'complete_linkage:rule', 'got %r want %r x=%r t=%r' % (outs['complete_linkage'], ref_complete(x, t), x, t))
     for name, rule in (('centroid_linkage', 'centroid'), ('average_linkage', 'average')):
         if name in outs:
-            allowed, amb = ref_rational(x, t, rule)
-            rec.check(tuple(outs[name]) in allowed, name + ':rule', 'got %r allowed %r x=%r t=%r' % (outs[name], sorted(allowed)[:3], x, t))
+            bad, amb = check_rational(x, t, rule, outs[name])
+            rec.check(bad is None, name + ':rule', 'labels %r break the rule at point %s (x=%r t=%r)' % (outs[name][:40], bad, x[:40], t))
             if amb:
                 rec.tag(rule + ':ambiguous')
     # monotonicity in t for single / complete
